@@ -537,8 +537,67 @@ func less(a, b []int) bool {
 	return false
 }
 
+// mkSliceCallerMemory: what a Slice holds is what was appended, whatever the
+// caller does afterwards with the slice it spread into Append, and Append never
+// writes into the caller's array (one thread; the values of a plain slice
+// are copied on append, so are these).
+func mkSliceCallerMemory(first, later int, spare int) *mc.Exec {
+	var err error
+	body := func() {
+		mc.GoNamed("caller", func() {
+			sl := slice.New[int]()
+			arr := make([]int, first, first+spare+1)
+			for i := range arr {
+				arr[i] = 10 + i
+			}
+			full := arr[:cap(arr)]
+			for i := first; i < len(full); i++ {
+				full[i] = -7 // canary in the caller's spare capacity
+			}
+			sl.Append(arr...)
+			want := append([]int{}, arr...)
+			for i := range arr {
+				arr[i] = 900 + i // the caller reuses its buffer for the next batch
+			}
+			for k := 0; k < later; k++ {
+				sl.Append(100 + k)
+				want = append(want, 100+k)
+			}
+			got := sl.Slice()
+			if fmt.Sprint(got) != fmt.Sprint(want) || sl.Len() != len(want) {
+				err = fmt.Errorf("[key=caller-memory] Slice() = %v (Len %d) after Append(buf...) of %v, the caller refilling buf, and %d more Appends; the appended values are %v", got, sl.Len(), want[:first], later, want)
+				return
+			}
+			for i := first; i < len(full); i++ {
+				if full[i] != -7 {
+					err = fmt.Errorf("[key=caller-memory] Append wrote %d into the spare capacity of the slice the caller had spread into an earlier Append (index %d)", full[i], i)
+					return
+				}
+			}
+		})
+	}
+	check := func(e *mc.End) error {
+		if !e.AllFinished() {
+			return fmt.Errorf("deadlock: %v", e.Parked())
+		}
+		return err
+	}
+	return &mc.Exec{Body: body, Check: check}
+}
+
 func scenarios() []hx.Scenario {
 	var out []hx.Scenario
+	for _, first := range []int{1, 3} {
+		for _, later := range []int{0, 1, 4} {
+			for _, spare := range []int{0, 2} {
+				first, later, spare := first, later, spare
+				out = append(out, hx.Scenario{
+					Name: fmt.Sprintf("slice.Slice caller memory first=%d later=%d spare=%d", first, later, spare), Class: "slice.Slice",
+					Opts: mc.Options{Bound: 0}, Mk: func() *mc.Exec { return mkSliceCallerMemory(first, later, spare) },
+				})
+			}
+		}
+	}
 	opts := mc.Options{Bound: 12, MinBound: 12, TieCost: 0, MaxSteps: 2000} // effectively unbounded for these bodies
 	add := func(kind string, s script, thoroughOnly bool, mk func(script, *cache) *mc.Exec) {
 		c := &cache{m: map[string]bool{}}
